@@ -37,23 +37,25 @@ type ModelRun struct {
 
 // Plan is what a property check does at one tier.
 type Plan struct {
-	Property  string
-	Tier      string
-	Seed      int64
-	Level     string // evidence level
-	Models    []ModelRun
-	EvalMod   string        // TLA+ module evaluating the records (record mode)
-	EvalEnv   map[string]string
-	Cases     func(emit func(Case)) // case generator (deterministic given Seed)
-	Isolated  bool          // run cases in worker processes (fatal crashes possible)
+	Property    string
+	Tier        string
+	Seed        int64
+	Level       string // evidence level
+	Models      []ModelRun
+	EvalMod     string // TLA+ module evaluating the records (record mode)
+	EvalEnv     map[string]string
+	Cases       func(emit func(Case)) // case generator (deterministic given Seed)
+	Isolated    bool                  // run cases in worker processes (fatal crashes possible)
 	CaseTimeout time.Duration
-	Rule      string   // evidence: how cases are generated and what non-trivial means
-	NonTrivial func(r Rec) bool
+	Rule        string // evidence: how cases are generated and what non-trivial means
+	NonTrivial  func(r Rec) bool
 	Assumptions []string
 	// Behaviour-mode trace validation (optional): called after record mode with
 	// the records; returns additional mismatches.
-	Behaviour func(p *Plan, recs []Rec) ([]Mismatch, *TLCResult, error)
+	Behaviour     func(p *Plan, recs []Rec) ([]Mismatch, *TLCResult, error)
 	ExtraCoverage map[string]any
+	// Histogram, when set, names the class a record is counted under in evidence coverage
+	Histogram func(r Rec) string
 	// Stages: additional (or alternative) batches of cases, each evaluated by its own
 	// module / environment (e.g. one per fixture schema).
 	Stages []Stage
@@ -552,6 +554,13 @@ func Run(p *Plan) int {
 	}
 	for k, v := range p.ExtraCoverage {
 		cov[k] = v
+	}
+	if p.Histogram != nil {
+		h := map[string]int{}
+		for _, r := range recs {
+			h[p.Histogram(r)]++
+		}
+		cov["histogram"] = h
 	}
 	var samples []any
 	step := len(recs)/3 + 1
